@@ -2,6 +2,7 @@ import DigModel.Proofs.Retry
 import DigModel.Proofs.ProvApi
 import DigModel.Proofs.RootCauseProgram
 import DigModel.Proofs.ValErr
+import DigModel.Proofs.ValErrProgram
 /-
   C07 — Failed executions contribute nothing and are retried.
 
@@ -131,6 +132,35 @@ theorem C07_value_typed_error_never_succeeds (p : Program) (fn : Fn) (hmem : fn 
     (∀ x len, bodyRes p.ctx fn st ≠ .ok x len) ∧ exitKind p.ctx fn (p.ctx.beh fn.id (st.execCount fn.id)) ≠ .ok :=
   valErr_never_ok p fn hmem huniq hv st
 
+/-- ... and for whole programs: **nothing a function with a value-typed error result returns is ever handed to any user
+    function** (as an argument or part of one, in any scope, through single values, groups, decorated values or
+    parameter objects), **nor does it sit in any cache at the end** — in every history, none of its executions has a
+    successful exit (`ve_program`, an invariant of `step` carried through the six resolver functions: every node
+    carries a function of the program, ids name functions uniquely, and `C07_value_typed_error_never_succeeds`);
+    the rest is `Prov`.  Function ids are positive (0 is the id of the default node the model reads out of range). -/
+theorem C07_value_typed_error_results_never_delivered (p : Program) (fn : Fn) (hmem : fn ∈ p.fns)
+    (huniq : ∀ g ∈ p.fns, g.id = fn.id → g = fn) (hv : (forcedOf p.types fn).isSome = true) (hid : fn.id ≠ 0) :
+    (∀ w x, Event.exit w fn.id x .ok ∉ (runProgram p).1.hist) ∧
+    (∀ (i : Nat) (w' : Who) (g y : Nat) (args : List Val), (runProgram p).1.hist[i]? = some (.enter w' g y args) →
+      ∀ a ∈ args, ∀ x, (fn.id, x) ∉ a.toks) ∧
+    (∀ (s : Nat) (k : Key) (x : Nat),
+      (∀ v, aget ((runProgram p).1.scope s).values k = some v → (fn.id, x) ∉ v.toks) ∧
+      (∀ v, aget ((runProgram p).1.scope s).decoratedValues k = some v → (fn.id, x) ∉ v.toks) ∧
+      (∀ v, v ∈ agetL ((runProgram p).1.scope s).groups k → (fn.id, x) ∉ v.toks) ∧
+      (∀ v, aget ((runProgram p).1.scope s).decoratedGroups k = some v → (fn.id, x) ∉ v.toks)) := by
+  have hve := ve_program p fn hmem huniq hv hid
+  refine ⟨hve.nook, ?_, ?_⟩
+  · intro i w' g y args hent a ha x hm
+    obtain ⟨w2, _, hok⟩ := (prov_program p).args i w' g y args hent a ha (fn.id, x) hm
+    exact hve.nook w2 x (List.mem_of_mem_take hok)
+  · intro s k x
+    have hp := (prov_program p).scopes s
+    refine ⟨?_, ?_, ?_, ?_⟩
+    · intro v hv' hm; obtain ⟨w2, _, hok⟩ := hp.values k v hv' (fn.id, x) hm; exact hve.nook w2 x hok
+    · intro v hv' hm; obtain ⟨w2, _, hok⟩ := hp.dvalues k v hv' (fn.id, x) hm; exact hve.nook w2 x hok
+    · intro v hv' hm; obtain ⟨w2, _, hok⟩ := hp.groups k v hv' (fn.id, x) hm; exact hve.nook w2 x hok
+    · intro v hv' hm; obtain ⟨w2, _, hok⟩ := hp.dgroups k v hv' (fn.id, x) hm; exact hve.nook w2 x hok
+
 /-- non-vacuity (a test): `func() (*T1, VErr)` with `VErr` a struct type that implements `error` has a forced entry;
     `func() (*T1, error)` has none -/
 example : (forcedOf [{ id := 0, kind := .iface, elem := none, impl := [], isErr := true },
@@ -142,6 +172,27 @@ example : (forcedOf [{ id := 0, kind := .iface, elem := none, impl := [], isErr 
     { id := 1, name := "f", nonfunc := none, ins := [], variadic := false, outs := [.univ 11, .univ 0] }).isSome = false := by
   decide
 
+/-- non-vacuity: a program that meets the hypotheses — `f : func() (*T1, VErr)` provided, `g : func(*T1)` invoked — and
+    what the model answers for it (a *test*, run by the evaluator): the Invoke fails with `f`'s error as root cause
+    although `f`'s script says nothing -/
+def veTypes : List TypeInfo :=
+  [{ id := 0, kind := .iface, elem := none, impl := [], isErr := true },
+   { id := 11, kind := .ptr, elem := none, impl := [], isErr := false },
+   { id := 25, kind := .struct, elem := none, impl := [], isErr := true }]
+def veF : Fn := { id := 1, name := "f", nonfunc := none, ins := [], variadic := false, outs := [.univ 11, .univ 25] }
+def veG : Fn := { id := 2, name := "g", nonfunc := none, ins := [.univ 11], variadic := false, outs := [] }
+def veProg : Program :=
+  { cfg := {}, types := veTypes, fns := [veF, veG], script := [], ops := [.provide 0 1 {}, .invoke 0 2 false] }
+example : veF ∈ veProg.fns ∧ (∀ g ∈ veProg.fns, g.id = veF.id → g = veF) ∧ (forcedOf veProg.types veF).isSome = true ∧
+    veF.id ≠ 0 := by
+  refine ⟨by simp [veProg], ?_, by decide, by decide⟩
+  intro g hg hid
+  simp only [veProg, List.mem_cons, List.mem_nil_iff, or_false] at hg
+  rcases hg with rfl | rfl
+  · rfl
+  · exact absurd hid (by decide)
+#guard ((runProgram veProg).2.map fun r => match r.v with | .ok => 0 | .err e => (match e.rootCause with | .user 1 0 => 2 | _ => 1) | _ => 3) == [0, 2]
+
 #print axioms C07_first_failure_is_reported
 #print axioms C07_failed_writes_nothing
 #print axioms C07_failed_never_delivered
@@ -151,4 +202,5 @@ example : (forcedOf [{ id := 0, kind := .iface, elem := none, impl := [], isErr 
 #print axioms C07_retry_deco
 #print axioms C07_others_kept
 #print axioms C07_value_typed_error_never_succeeds
+#print axioms C07_value_typed_error_results_never_delivered
 end Dig.C07
